@@ -881,12 +881,30 @@ impl MachineState {
 
         let end_cell = heap_pstr_iter.heap[heap_pstr_iter.focus()];
 
-        if heap_pstr_iter.is_cyclic() || end_cell != empty_list_as_cell!() {
+        if heap_pstr_iter.is_cyclic() {
             let err = self.type_error(ValidType::List, a1);
             return Err(self.error_form(err, stub_gen()));
         }
 
-        Ok(chars)
+        // the string part is only a prefix of the list when it is followed by
+        // elements that are not characters: carry on with the remaining cells.
+        read_heap_cell!(end_cell,
+            (HeapCellValueTag::Lis, l) => {
+                self.try_from_inner_list(chars, l, stub_gen, a1)
+            }
+            (HeapCellValueTag::AttrVar | HeapCellValueTag::StackVar | HeapCellValueTag::Var) => {
+                let err = self.instantiation_error();
+                Err(self.error_form(err, stub_gen()))
+            }
+            _ => {
+                if end_cell == empty_list_as_cell!() {
+                    Ok(chars)
+                } else {
+                    let err = self.type_error(ValidType::List, a1);
+                    Err(self.error_form(err, stub_gen()))
+                }
+            }
+        )
     }
 
     // returns true on failure.
